@@ -1,7 +1,6 @@
 SPECIFICATION Spec
 CONSTANTS
   N = 2
-  Lo = -3
-  Hi = 3
+  Rad = 3
   Bug = 0
 INVARIANTS PtsLaw ContainsPointLaw IntersectsLaw IntersectionLaw ContainsLaw ExtendLaw ExtendPointLaw CornerLaw ShrinkStretchLaw CenterLaw DistanceLaw
